@@ -288,7 +288,10 @@ impl Property for C07 {
                 // the reported centre of every range is itself accepted
                 ensure!(cons.compliant(&cons.centers), "the reported centre of every range is itself accepted", "from={:?} to={:?} centres={:?}", from, to, cons.centers);
                 // update_range == new
-                let mut u = Constraints::new([0.3; 6], [0.1; 6], *weight);
+                // the earlier limits share the lower limit (even joints) or the upper limit (odd joints) with the new ones
+                let f0: [f64; 6] = std::array::from_fn(|k| if k % 2 == 0 { from[k] } else { 0.3 });
+                let t0: [f64; 6] = std::array::from_fn(|k| if k % 2 == 1 { to[k] } else { 0.1 });
+                let mut u = Constraints::new(f0, t0, *weight);
                 u.update_range(*from, *to);
                 ensure!(u.centers == cons.centers && u.tolerances == cons.tolerances && u.from == cons.from && u.to == cons.to && u.sorting_weight == *weight, "update_range(f,t) is equivalent to new(f,t,w)", "{:?} vs {:?}", u, cons);
                 // filter == elementwise compliant, and compliant == conjunction of the per-joint oracle
